@@ -305,6 +305,11 @@ def _write_replay(prop, v, tier, seed):
     return path
 
 
+def _printable(s):
+    """Control characters of generated inputs must not reach stdout raw (NUL makes grep treat the output as binary)."""
+    return "".join(ch if (ch.isprintable() or ch == " ") else ch.encode("unicode_escape").decode("ascii") for ch in s)
+
+
 def main(argv=None):
     ap = argparse.ArgumentParser(prog="vcheck")
     ap.add_argument("prop")
@@ -425,7 +430,7 @@ def main(argv=None):
             f.write("\n")
         os.replace(tmp, os.path.join(OUT, "evidence", f"{prop}.json"))
     for ln in lines:
-        print(ln)
+        print(_printable(ln))
     print(f"{prop} {tier} seed={seed}: {verdict}; evaluations={merged.evaluations} "
           f"distinct={len(merged.distinct)} violations={len(new)} known={len(seen_known)} wall={wall:.1f}s")
     return rc
